@@ -18,11 +18,16 @@ structure Blk where
   height : Nat
   txs : List Nat
   post : Option World
+  hdr : HdrCid                -- the chain id the block's header carries (rest: `[0]` this chain's, `[1]` anything else)
+  hcid : Bytes                -- its hash: `bi.ChainIdHash()` of the block
 
 structure Node where
   cidA : Bytes                -- chain-id hash of blocks below the hard-fork height `forkAt`
   cidB : Bytes                -- … of blocks at or above it (`forkAt = 0`: every block)
   forkAt : Nat
+  verA : Nat                  -- hard-fork version the node is configured with below `forkAt`
+  verB : Nat                  -- … at or above it
+  hcids : List Bytes          -- registry: header chain-id hash ↦ number (what the pool compares to detect a "fork")
   poolH : Nat                 -- height of the block the pool was last notified of
   pub : Bool
   maxAER : Nat
@@ -41,7 +46,7 @@ def emptyWorld : World :=
   { nonce := fun _ => 0, led := { bal := fun _ => 0, names := fun _ => none, pend := [], creator := fun _ => [] } }
 
 def Node.init : Node :=
-  { cidA := [], cidB := [], forkAt := 0, poolH := 0, pub := false, maxAER := 0, txs := [], blks := [], best := 0, accts := [], shown := [], hashes := [], names := [],
+  { cidA := [], cidB := [], forkAt := 0, verA := 4, verB := 5, hcids := [], poolH := 0, pub := false, maxAER := 0, txs := [], blks := [], best := 0, accts := [], shown := [], hashes := [], names := [],
     pool := Pool.Pool.init, pentries := [], poolW := emptyWorld }
 
 def findTx (nd : Node) (tid : Nat) : Option Tx := (nd.txs.find? (·.1 == tid)).map (·.2)
@@ -101,6 +106,10 @@ def bErr : BErr → String
   | .tx e => xErr e
   | .sig => "sig"
 
+def hErr : HErr → String
+  | .header => "x"
+  | .blk e => bErr e
+
 def short (b : Bytes) : String := hex (b.take 4)
 
 /-- `bi.ChainIdHash()` of a block at height `h`: hash of the chain id carrying the hard-fork version of that height. -/
@@ -109,8 +118,19 @@ def cidFor (nd : Node) (h : Nat) : Bytes := if h < nd.forkAt then nd.cidA else n
 /-- the pool's `acceptChainIdHash`: the chain id with the version of the block after the one it was last told about -/
 def acceptCid (nd : Node) : Bytes := cidFor nd (nd.poolH + 1)
 
-/-- number standing for the chain id bytes of a block header (version 0 in the genesis header, then per fork version) -/
-def chainNo (nd : Node) (h : Nat) : Nat := if h = 0 then 1 else if h < nd.forkAt then 2 else 3
+/-- `cfg.Hardfork.Version(h)` of the node -/
+def cfgVer (nd : Node) (h : Nat) : Nat := if h < nd.forkAt then nd.verA else nd.verB
+
+/-- the header an honest producer gives a block at height `h`: this chain's id in the configured version -/
+def hdrFor (nd : Node) (h : Nat) : HdrCid := ⟨cfgVer nd h, [0]⟩
+
+/-- number standing for the chain id bytes of a block header (1: the genesis header with version 0, else by the
+header's chain-id hash; `hcids` starts as `[cidA, cidB]`) -/
+def chainNo (nd : Node) (b : Blk) : Nat :=
+  if b.height = 0 then 1 else
+  match indexOf nd.hcids b.hcid with
+  | some i => i + 2
+  | none => 0
 
 def env (nd : Node) : Env := zeroFeeEnv nd.pub nd.maxAER
 
@@ -145,9 +165,9 @@ def takeTx (nd : Node) (tid : Nat) (t : Tx) : Node × String :=
 /-- `MemPoolDel{block}` after a block was executed and connected: `removeOnBlockArrival`. When the chain id bytes of the
 block differ from those of the block the pool knew (genesis → block 1, and at the hard-fork height) `setStateDB` reports
 "forked" and the pool is emptied, as in the real node. -/
-def notifyPool (nd : Node) (bid parent h : Nat) (W : World) : Node :=
-  let P := nd.pool.blockArrival (bid + 1) (parent + 1) (chainNo nd h) [] (sigmaOf W nd.accts)
-  { nd with pool := P, poolW := W, poolH := h }
+def notifyPool (nd : Node) (b : Blk) (W : World) : Node :=
+  let P := nd.pool.blockArrival (b.id + 1) (b.parent + 1) (chainNo nd b) [] (sigmaOf W nd.accts)
+  { nd with pool := P, poolW := W, poolH := b.height }
 
 def txsOf (nd : Node) (tids : List Nat) : Option (List Tx) := tids.mapM (findTx nd)
 
@@ -174,6 +194,14 @@ def mainChain (nd : Node) : Nat → Nat → List Nat
 
 def worldOf (nd : Node) (bid : Nat) : Option World := (findBlk nd bid).bind (·.post)
 
+/-- the header chain id of the node's best block -/
+def hdrOfBlk (nd : Node) (bid : Nat) : HdrCid := match findBlk nd bid with | some b => b.hdr | none => ⟨0, [0]⟩
+
+/-- one received block: header check and execution (`execHBlock`); the hash of the header's chain id is the one the
+op line carried -/
+def execOne (nd : Node) (useMempool : Bool) (best : HdrCid) (W : World) (b : Blk) (txs : List Tx) :=
+  execHBlock Hid idealVerify (env nd) stdBody (fun _ => b.hcid) (cfgVer nd) useMempool (hitOf nd) best b.height W b.hdr txs
+
 /-- roll forward over `path` from world `W`: (node, error class or none, last world) -/
 def rollForward (useMempool : Bool) : Node → World → Nat → List Nat → Node × Option String
   | nd, _, _, [] => (nd, none)
@@ -184,30 +212,38 @@ def rollForward (useMempool : Bool) : Node → World → Nat → List Nat → No
       match txsOf nd b.txs with
       | none => (nd, some "bad-op")
       | some txs =>
-        match execBlock Hid idealVerify (env nd) stdBody (cidFor nd b.height) useMempool (hitOf nd) W txs with
-        | .error e => (nd, some (bErr e))
+        match execOne nd useMempool (hdrOfBlk nd parent) W b txs with
+        | .error e => (nd, some (hErr e))
         | .ok (W1, _) =>
-          let nd1 := notifyPool (setPost nd bid W1) bid parent b.height W1
+          let nd1 := notifyPool (setPost nd bid W1) b W1
           rollForward useMempool nd1 W1 bid rest
 
 def insertSorted (x : Nat × String) : List (Nat × String) → List (Nat × String)
   | [] => [x]
   | y :: r => if x.1 ≤ y.1 then x :: y :: r else y :: insertSorted x r
 
-def addBlock (nd : Node) (bid parent : Nat) (useMempool : Bool) (tids : List Nat) : Node × String :=
+def addBlock (nd : Node) (bid parent : Nat) (useMempool : Bool) (hdr : Option (HdrCid × Bytes)) (tids : List Nat) : Node × String :=
   match findBlk nd parent, txsOf nd tids with
   | some pb, some txs =>
-    let b : Blk := { id := bid, parent := parent, height := pb.height + 1, txs := tids, post := none }
+    let height := pb.height + 1
+    let (h, hc) := match hdr with
+      | some x => x
+      | none => (hdrFor nd height, cidFor nd height)
+    let nd := { nd with hcids := (reg nd.hcids hc).1 }
+    let b : Blk := { id := bid, parent := parent, height := height, txs := tids, post := none, hdr := h, hcid := hc }
     let bestH := match findBlk nd nd.best with | some x => x.height | none => 0
+    -- `ValidChildOf(bestBlock)` comes before anything else, also for a block that would only be stored
+    if !acceptHeader (cfgVer nd) (hdrOfBlk nd nd.best) height h then (nd, "rej:x") else
     if parent == nd.best then
       match pb.post with
       | none => (nd, "bad-op")
       | some W =>
-        match execBlock Hid idealVerify (env nd) stdBody (cidFor nd b.height) useMempool (hitOf nd) W txs with
-        | .error e => (nd, "rej:" ++ bErr e)
+        match execOne nd useMempool (hdrOfBlk nd nd.best) W b txs with
+        | .error e => (nd, "rej:" ++ hErr e)
         | .ok (W1, _) =>
-          let nd1 := { nd with blks := nd.blks ++ [{ b with post := some W1 }], best := bid }
-          (notifyPool nd1 bid parent b.height W1, "ok")
+          let b1 := { b with post := some W1 }
+          let nd1 := { nd with blks := nd.blks ++ [b1], best := bid }
+          (notifyPool nd1 b1 W1, "ok")
     else
       let nd1 := { nd with blks := nd.blks ++ [b] }
       if b.height ≤ bestH then (nd1, "stored") else
@@ -240,6 +276,29 @@ def addBlock (nd : Node) (bid parent : Nat) (useMempool : Bool) (tids : List Nat
               | none => st) ({ nd2 with best := bid }, [])
             (r.1, "ok reorg " ++ (if r.2.isEmpty then "-" else ",".intercalate r.2))
   | _, _ => (nd, "bad-op")
+
+/-- The node's own block (`produce <bid> <tids…>`: the transactions the real block factory put into its block, in block
+order): each must be an entry of the model's pool and execute, in this order, with the verified account the pool attached. -/
+def produce (nd : Node) (bid : Nat) (tids : List Nat) : Node × String :=
+  match findBlk nd nd.best, worldOf nd nd.best, txsOf nd tids with
+  | some pb, some W, some txs =>
+    let height := pb.height + 1
+    let cands : List PEntry := txs.filterMap (fun t => match indexOf nd.hashes t.hash with
+      | some hi => (nd.pool.exist hi).map (fun ptx => ⟨t, (nd.accts[ptx.acc]?).getD []⟩)
+      | none => none)
+    if cands.length ≠ txs.length then (nd, "notpooled") else
+    let r := produceBlock Hid (env nd) stdBody (cidFor nd height) W cands
+    if r.2.length ≠ txs.length then (nd, "skipped") else
+    let hc := cidFor nd height
+    let b : Blk := { id := bid, parent := nd.best, height := height, txs := tids, post := some r.1, hdr := hdrFor nd height, hcid := hc }
+    let nd1 := { nd with blks := nd.blks ++ [b], best := bid, hcids := (reg nd.hcids hc).1 }
+    (notifyPool nd1 b r.1, "ok")
+  | _, _, _ => (nd, "bad-op")
+
+/-- `MemPool.loadTxs`, one record: `verifyTx`, then `put` (`poolLoad` = `poolAdmit`). -/
+def loadTx (nd : Node) (tid : Nat) (t : Tx) : Node :=
+  -- `takeTx` runs `poolAdmit` on the pool's view; `poolLoad` is that function by definition
+  (takeTx nd tid t).1
 
 def parseCmd (s : String) : Option Cmd :=
   if s == "-" then some .none else
@@ -293,7 +352,8 @@ def step (nd : Node) (line : String) : Node × String :=
       let accts := addrs ++ [aergoName]
       let P := (Pool.Pool.init.setStateDB 1 0 1 (sigmaOf W accts)).1
       ({ Node.init with cidA := cidA, cidB := cidB, forkAt := forkAt, pub := pub == "1", maxAER := mx, accts := accts, shown := accts,
-                        blks := [{ id := 0, parent := 0, height := 0, txs := [], post := some W }],
+                        hcids := [cidA, cidB],
+                        blks := [{ id := 0, parent := 0, height := 0, txs := [], post := some W, hdr := ⟨0, [0]⟩, hcid := [] }],
                         pool := P, poolW := W }, "ok")
     | _, _, _, _, _, _ => (nd, "bad-op")
   | ["tx", tid, nonce, acct, rcpt, amt, payload, gl, gp, ty, cid, sig, hash, size, gov, cmd] =>
@@ -353,8 +413,29 @@ def step (nd : Node) (line : String) : Node × String :=
   | "block" :: bid :: parent :: usepool :: tids =>
     match bid.toNat?, parent.toNat?, tids.mapM String.toNat? with
     | some bid, some parent, some tids =>
-      if (findBlk nd bid).isSome then (nd, "bad-op") else addBlock nd bid parent (usepool == "1") tids
+      if (findBlk nd bid).isSome then (nd, "bad-op") else addBlock nd bid parent (usepool == "1") none tids
     | _, _, _ => (nd, "bad-op")
+  | "blockh" :: bid :: parent :: usepool :: ver :: hc :: same :: tids =>
+    match bid.toNat?, parent.toNat?, ver.toNat?, unhex hc, tids.mapM String.toNat? with
+    | some bid, some parent, some ver, some hc, some tids =>
+      if (findBlk nd bid).isSome || !(same == "0" || same == "1") then (nd, "bad-op")
+      else addBlock nd bid parent (usepool == "1") (some (⟨ver, if same == "1" then [0] else [1]⟩, hc)) tids
+    | _, _, _, _, _ => (nd, "bad-op")
+  | "produce" :: bid :: tids =>
+    match bid.toNat?, tids.mapM String.toNat? with
+    | some bid, some tids => if (findBlk nd bid).isSome then (nd, "bad-op") else produce nd bid tids
+    | _, _ => (nd, "bad-op")
+  | ["cfgver", a, b] =>
+    match a.toNat?, b.toNat? with
+    | some a, some b => ({ nd with verA := a, verB := b }, "ok")
+    | _, _ => (nd, "bad-op")
+  | "load" :: tids =>
+    match tids.mapM String.toNat? with
+    | some tids =>
+      (match tids.mapM (fun n => (findTx nd n).map (fun t => (n, t))) with
+       | some l => let nd1 := l.foldl (fun nd p => loadTx nd p.1 p.2) nd; (nd1, poolLine nd1)
+       | none => (nd, "bad-op"))
+    | none => (nd, "bad-op")
   | ["state"] => (nd, stateLine nd)
   | ["pool"] => (nd, poolLine nd)
   | _ => (nd, "bad-op")
